@@ -673,7 +673,7 @@ def values_equal(it, a, b):
         sa, sb = sort_of(a), sort_of(b)
         if sa is not None and sb is not None and sa.eq(sb):
             return z3.simplify(term(a) == term(b))
-        if (sa is not None and z3.is_seq(term(a))) or (sb is not None and z3.is_seq(term(b))):
+        if (sa is not None and z3.is_seq(term(a)) and not sa.eq(StrS)) or (sb is not None and z3.is_seq(term(b)) and not sb.eq(StrS)):
             if sa is not None and sb is not None:
                 return False if not sa.eq(sb) else term(a) == term(b)
         try:
